@@ -24,6 +24,7 @@ CONS_CFG = "INIT ConsInit\nNEXT JudgeNext\nCHECK_DEADLOCK FALSE\n"
 WHY_CFG = "INIT WhyInit\nNEXT JudgeNext\nCHECK_DEADLOCK FALSE\n"
 RUN_CFG = "INIT RunInit\nNEXT JudgeNext\nCHECK_DEADLOCK FALSE\n"
 FOLD_CFG = "INIT FoldInit\nNEXT JudgeNext\nCHECK_DEADLOCK FALSE\n"
+POS_CFG = "INIT PosInit\nNEXT JudgeNext\nCHECK_DEADLOCK FALSE\n"
 VM_CONST = "CONSTANTS StepLimit = 4  StackLimit = 2  PollInterval = 2  Deadlines = {3, 8, 1000}  N = 1  MaxSub = 1  MaxSubRuns = 2  Devs = %s\n"
 VM_DESIGN = VM_CONST % "{}" + ("SPECIFICATION Spec\nINVARIANTS TypeOK StepBound SubStepBound StackBound PollBound LateBound WorkBound SubWorkBound Outcome\n"
                               "PROPERTY Terminates\n")
@@ -39,7 +40,7 @@ def cpu():
     return t.children_user + t.children_system + t.user + t.system
 
 
-ALL_PARTS = ("models", "construction", "matching", "folding")
+ALL_PARTS = ("models", "construction", "matching", "folding", "positions")
 
 
 def run(rep):
@@ -76,7 +77,7 @@ def run(rep):
     kinds = {}
     for r in res.records:
         kinds.setdefault(r["kind"], []).append(r)
-    if not all(k in kinds for k in ("strings", "flags", "special", "family", "fold")):
+    if not all(k in kinds for k in ("strings", "flags", "special", "family", "fold", "pos")):
         raise Machinery("enumeration incomplete: %r" % list(kinds))
     phases["models_laws_enum"] = round(time.time() - t0, 1)
     if "construction" in parts:
@@ -91,6 +92,10 @@ def run(rep):
         t0 = time.time()
         folding(rep, kinds["fold"])
         phases["folding"] = round(time.time() - t0, 1)
+    if "positions" in parts:
+        t0 = time.time()
+        positions(rep, kinds["pos"][0])
+        phases["positions"] = round(time.time() - t0, 1)
     rep.exhaustive = len(parts) == len(ALL_PARTS) and "partial_run_maxlen" not in rep.notes
     if not rep.exhaustive:
         rep.notes["partial_run"] = parts
@@ -302,6 +307,62 @@ def folding(rep, chars):
     rep.notes["folding_evaluations_judged_exactly"] = exact
 
 
+def positions(rep, grid):
+    """matching from every state of the RegExp object: cells of patterns x flag strings x subjects, each with every lastIndex and op"""
+    lis = sorted(grid["lis"], key=lambda x: x["name"])
+    ops = grid["ops"]
+    seen, items = set(), []
+    for cell in sorted(grid["cells"], key=lambda c: -len(c["pats"]) * len(c["flags"]) * len(c["subjects"])):
+        for pat in sorted(cell["pats"], key=lambda x: x["name"]):
+            for fl in sorted(cell["flags"]):
+                for subj in sorted(cell["subjects"]):
+                    key = (pat["name"], tuple(fl), tuple(subj))
+                    if key not in seen:
+                        seen.add(key)
+                        items.append({"id": len(items), "pat": pat["name"], "src": pat["src"], "fl": fl, "subj": subj})
+    nev = len(items) * len(lis) * len(ops)
+    rep.spaces.append({"space": "matching from a given state of the RegExp object: (pattern, flags, subject) x %d ways lastIndex gets its value x %d entry points"
+                                % (len(lis), len(ops)), "cases": len(items), "evaluations": nev, "complete": True})
+    per = max(1, min(12, len(items) // 64 + 1))
+    batches = [{"id": k, "lis": lis, "ops": ops, "items": items[k:k + per]} for k in range(0, len(items), per)]
+    c0 = cpu()
+    with ThreadPoolExecutor(max_workers=16) as ex:          # 16 processes of their own (engine.run_cases would use len // 20)
+        futs = [ex.submit(engine.run_cases, rep.pid, batches[k::16], driver="checks.c10_driver:pos_batch", tag="eng_pos_%d" % k, procs=1, timeout=3600)
+                for k in range(16) if batches[k::16]]
+        results = [r for f in futs for r in f.result()]
+    rep.notes["positions_engine_cpu_s"] = round(cpu() - c0, 1)
+    byid = {r["id"]: r for r in results}
+    if len(byid) != len(items):
+        raise Machinery("engine returned %d results for %d position cases" % (len(byid), len(items)))
+    recs, back = [], []
+    for it in items:
+        r = byid[it["id"]]
+        for i, li in enumerate(lis):
+            recs.append({"id": len(recs), "pat": it["pat"], "fl": it["fl"], "subj": it["subj"], "li": li["name"], "out": r["out"][i], "ty": r["ty"][i]})
+            back.append((it, i))
+    verdicts, st, tr, wall = tlc.judge(rep.pid, "C10", recs, POS_CFG, tag="judge_pos", shards=8, timeout=3600)
+    got = {v["id"]: v for v in verdicts}
+    if len(got) != len(recs):
+        raise Machinery("judge returned %d verdicts for %d position records" % (len(got), len(recs)))
+    outcomes = {}
+    for rec in recs:
+        v = got[rec["id"]]
+        it, i = back[rec["id"]]
+        label = "/%s/%s on %r, lastIndex %s" % (wire.from_units(it["src"]), wire.from_units(it["fl"]), wire.from_units(it["subj"]), rec["li"])
+        for c, b in enumerate(v["bad"]):
+            outcomes[rec["out"][c]] = outcomes.get(rec["out"][c], 0) + 1
+            if b:
+                rep.mismatch("%s [%s] %s" % (label, ops[c], b),
+                             {"expected": "a defined value of the entry point, or an error of the JSError family", "actual": rec["out"][c], "detail": rec["ty"][c],
+                              "clause": b, "lastIndex(before, after)": byid[it["id"]]["li_seen"][i][c],
+                              "case": {"src": it["src"], "fl": it["fl"], "subj": it["subj"], "lastIndex": lis[i], "op": ops[c]}}, dev="")
+        if not any(v["bad"]) and rec["id"] % 1013 == 7:
+            rep.sample({"case": label, "ops": ops, "engine": rec["out"], "lastIndex(before, after)": byid[it["id"]]["li_seen"][i], "verdict": "pass"}, limit=12)
+    rep.add_judge(nev, st, tr)
+    rep.evaluations = (rep.evaluations or 0) + nev
+    rep.notes["positions_outcomes"] = outcomes
+
+
 def show_cons(it):
     if "name" in it:
         return "special:" + it["name"] + (" %r flags %r" % (wire.from_units(it["p"][:40]), it.get("fl", "")) if "numrule" in it else "")
@@ -322,7 +383,7 @@ def cfg_label(c):
 
 def matching(rep, families):
     quick = rep.tier == "quick"
-    caps = {"main": 1_500_000 if quick else 8_000_000, "aux": 400_000 if quick else 1_500_000}
+    caps = {"main": 1_500_000 if quick else 8_000_000, "aux": 400_000 if quick else 1_500_000, "look": 200_000 if quick else 2_000_000}
     cases = []
     for f in sorted(families, key=lambda f: f["fam"]):
         for c in sorted(f["runs"], key=lambda c: json.dumps(c, sort_keys=True)):
